@@ -402,7 +402,7 @@ func c04KeptClient(c *Ctx) {
 			c.Unk("C04.E4-kept-client", key+" › stored only when constructed", cs.In.Pos(), "constructed client is not stored in the handler")
 		}
 	}
-	c.Floor("C04.E4-kept-client", 4)
+	c.Floor("C04.E4-kept-client", 2) // (one construction site with both conditions is enough: the two address kinds may share it)
 }
 
 // c04Fallback: every store that switches the sync client to the legacy
